@@ -1,10 +1,13 @@
 // Native replay for C06 against the real STIR libraries.
 // usage: c06_replay subset_num <num_subsets> <start_subiteration> <start_subset> <randomise> <n_calls>
+//        c06_replay symop <num_views> <unused> <max_segment> <do90> <do180> <swapseg> [<swap_s> <shift_z>]   (C03)
 //        c06_replay partition <num_views> <num_subsets> <max_segment> <do90> <do180> <swapseg>
 #include "stir/OSMAPOSL/OSMAPOSLReconstruction.h"
 #include "stir/DiscretisedDensity.h"
 #include "stir/recon_buildblock/find_basic_vs_nums_in_subsets.h"
 #include "stir/recon_buildblock/DataSymmetriesForBins_PET_CartesianGrid.h"
+#include "stir/recon_buildblock/SymmetryOperation.h"
+#include "stir/Bin.h"
 #include "stir/ProjDataInfoCylindricalNoArcCorr.h"
 #include "stir/VoxelsOnCartesianGrid.h"
 #include "stir/Scanner.h"
@@ -62,6 +65,40 @@ int main(int argc, char** argv)
         for (int v = 0; v < nv; ++v)
           if (seen[std::make_pair(seg, v)] != 1) { std::printf("CONFIRMED (segment %d, view %d) processed %d times over all %d subsets\n", seg, v, seen[std::make_pair(seg, v)], S); return 1; }
       if ((int)seen.size() != (2 * maxseg + 1) * nv) { std::printf("CONFIRMED view-segments outside the data were processed\n"); return 1; }
+      std::printf("REPLAY ok\n");
+      return 0;
+    }
+  if (!strcmp(argv[1], "symop") && argc >= 8)
+    {
+      // C03: for every bin, the symmetry operation applied to the basic bin gives back the bin (all five coordinates)
+      const int nv = atoi(argv[2]), maxseg = atoi(argv[4]);
+      const bool d90 = atoi(argv[5]), d180 = atoi(argv[6]), sw = atoi(argv[7]);
+      const bool sws = argc > 8 ? atoi(argv[8]) : true, shz = argc > 9 ? atoi(argv[9]) : true;
+      shared_ptr<Scanner> scanner(new Scanner(Scanner::E931));
+      scanner->set_num_detectors_per_ring(2 * nv);
+      scanner->set_num_rings(maxseg + 2);
+      shared_ptr<ProjDataInfo> pdi(ProjDataInfo::ProjDataInfoCTI(scanner, 1, maxseg, nv, 8, false));
+      shared_ptr<DiscretisedDensity<3, float>> img(new VoxelsOnCartesianGrid<float>(*pdi));
+      DataSymmetriesForBins_PET_CartesianGrid sym(pdi, img, d90, d180, sw, sws, shz);
+      if ((d90 && nv % 4 == 0 && !sym.do_symmetry_90degrees_min_phi) || ((d90 || d180) && nv % 2 == 0 && !sym.do_symmetry_180degrees_min_phi))
+        { std::printf("requested view symmetries were switched off by the constructor\n"); return 3; }
+      for (int seg = -maxseg; seg <= maxseg; ++seg)
+        for (int ax = pdi->get_min_axial_pos_num(seg); ax <= pdi->get_max_axial_pos_num(seg); ++ax)
+          for (int v = 0; v < nv; ++v)
+            for (int t = pdi->get_min_tangential_pos_num(); t <= pdi->get_max_tangential_pos_num(); ++t)
+              {
+                const Bin b0(seg, v, ax, t);
+                Bin b = b0;
+                unique_ptr<SymmetryOperation> op = sym.find_symmetry_operation_from_basic_bin(b);
+                Bin again = b;
+                if (sym.find_basic_bin(again) || !(again == b))
+                  { std::printf("CONFIRMED basic bin of (seg %d, view %d, ax %d, tang %d) is not a fixed point of find_basic_bin\n", seg, v, ax, t); return 1; }
+                Bin back = b;
+                op->transform_bin_coordinates(back);
+                if (!(back == b0))
+                  { std::printf("CONFIRMED bin (seg %d, view %d, ax %d, tang %d): operation applied to its basic bin (seg %d, view %d, ax %d, tang %d) gives (seg %d, view %d, ax %d, tang %d)\n",
+                                seg, v, ax, t, b.segment_num(), b.view_num(), b.axial_pos_num(), b.tangential_pos_num(), back.segment_num(), back.view_num(), back.axial_pos_num(), back.tangential_pos_num()); return 1; }
+              }
       std::printf("REPLAY ok\n");
       return 0;
     }
